@@ -212,7 +212,7 @@ def run(ctx):
             s = 'let e_ := %s in %s' % (gl(expected), s)
         return S.with_pool(pool, s)
 
-    def one_wf(pv, name, body, rm, combo):
+    def one_wf(pv, name, body, rm, combo, history=None):
         trace, warnings, payload = g.extras(combo)
         r = ('mkresp', trace, warnings, payload, body)
         stream = ctx.rng.choice([0, 1, 127, 300, 32767, -1])
@@ -226,13 +226,18 @@ def run(ctx):
                                          server_message=body[2] if is_err else b'')
         case = {'pv': pv, 'kind': name, 'stream': stream, 'flags': flags, 'opcode': opcode, 'body': bts.hex(),
                 'rm': tj(rm), 'raw_cells': raw}
-        ctx.case([pv, flags, opcode, bts.hex(), tj(rm)], nontrivial=len(bts) > 0,
+        if history:
+            case['history'] = list(history)       # frames decoded earlier by the same process (leftover state)
+        info = dict(case, impl=impl)
+        ctx.case([pv, flags, opcode, bts.hex(), tj(rm), [h['body'] for h in history or []]], nontrivial=len(bts) > 0,
                  sample={'pv': pv, 'kind': name, 'flags': flags, 'opcode': opcode, 'body_hex': bts.hex()[:160], 'decoded': repr(impl)[:300]})
         ctx.count('kind', name.split('.')[0] + '.' + (name.split('.')[1] if '.' in name else ''))
         ctx.count('version', str(pv))
         ctx.count('frame_extras', 'trace%d.warn%d.payload%d' % combo)
         ctx.count('body_len', '<16' if len(bts) < 16 else '<64' if len(bts) < 64 else '<256' if len(bts) < 256 else '>=256')
         base = '.'.join(name.split('.')[:2])
+        if history:
+            base += '.after_earlier_frames'
         # ---- the property itself on the implementation
         if impl != expected:
             key = gapkey or (base + ('.raised' if impl is None else '.contents'))
@@ -246,10 +251,11 @@ def run(ctx):
                           actual=xnote or repr(xt)[:600], theorem='C04_exceptions')
         if is_uncanon(impl) or is_uncanon(xt):
             ctx.disagreement('uncanonical.' + base, '%s at v%d: %s' % (name, pv, note or xnote), case=case, actual=note or xnote)
-            return
+            return info
         cases.append(coq_case_wf(pv, rm, stream, r, gapkey, flags, opcode, bts, expected, docx, impl, xt))
         meta.append(('wf', name, case, impl, expected))
         wf_cases.append((pv, rm, stream, flags, opcode, bts, raw, name))
+        return info
 
     def one_raw(pv, name, rm, stream, flags, opcode, bts, raw=True):
         impl, note, _, _ = run_impl(pv, rm, stream, flags, opcode, bts, raw=raw)
@@ -286,6 +292,29 @@ def run(ctx):
                 for _ in range(inst):
                     body, rm = thunk()
                     one_wf(pv, name, body, rm, combo)
+    # histories: state left behind by earlier frames of the same process (the UDT class cache behind read_type)
+    uid = ctx.rng.randrange(10 ** 6) * 1000
+    nh = 0
+    for pv in G.VERSIONS:
+        for _ in range(4 if quick else 25):
+            uid += 1
+            hname, frames = g.udt_history(pv, uid)
+            infos = []
+            for k, (body, rm) in enumerate(frames):
+                hist = [{x: i[x] for x in ('pv', 'rm', 'stream', 'flags', 'opcode', 'body', 'raw_cells')} for i in infos]
+                infos.append(one_wf(pv, 'RESULT.' + hname + '.frame%d' % k, body, rm, ctx.rng.choice(G.COMBOS), history=hist))
+            ctx.count('kind', 'history.udt_redefined')
+            if any(is_uncanon(i['impl']) for i in infos):
+                continue
+            pool = {}
+            fr = '[%s]' % '; '.join('mkframe %d %s %s %d %d %s' % (i['pv'], S.gal(jt(i['rm']), pool), S.gal(i['stream']), i['flags'], i['opcode'],
+                                                                 S.gal(bytes.fromhex(i['body']), pool)) for i in infos)
+            im = S.gal([None if i['impl'] is None else ('Some', i['impl']) for i in infos], pool)
+            cases.append(S.with_pool(pool, 'chk_hist %s %s' % (fr, im)))
+            meta.append(('hist', 'RESULT.' + hname, dict(infos[-1], history=[{x: i[x] for x in ('pv', 'rm', 'stream', 'flags', 'opcode', 'body', 'raw_cells')} for i in infos[:-1]],
+                                                          impl=None), [i['impl'] for i in infos], None))
+            nh += 1
+    ctx.extra['histories'] = nh
     # malformed stream: truncations of well-formed bodies + hand-made invalid bodies
     nsrc = 200 if quick else 1000
     srcs = list(wf_cases)
@@ -301,7 +330,7 @@ def run(ctx):
                 '{global_tables_spec,has_more_pages,no_metadata,metadata_changed}/prepared x {global spec, result-metadata flags}/'
                 'schema_change x target; every ERROR code; EVENT x3 (+5 schema targets); SUPPORTED; READY; AUTHENTICATE; AUTH_CHALLENGE; '
                 'AUTH_SUCCESS) x %s tracing/warnings/payload combinations, random contents from boundary pools; plus truncations of those '
-                'bodies and hand-made invalid bodies. distinct = distinct (version, flags, opcode, body, result_metadata); '
+                'bodies and hand-made invalid bodies; plus 3-frame histories of one process in which a UDT (same keyspace, name, field names) is re-described with other field types (rows / nested / prepared bind / prepared result), checked against the stateful model. distinct = distinct (version, flags, opcode, body, result_metadata); '
                 'non-trivial = non-empty body' % ('2 random' if quick else 'all 8'))
     # ---- model vs implementation (and validation of the Python twins), inside Coq
     try:
@@ -318,7 +347,10 @@ def run(ctx):
         for i, code in zip(bad[:12], codes):
             kind, name, case, impl, expected = meta[i]
             code = code.strip()
-            if code in ('1', '2', '3'):
+            if code == '6':
+                ctx.disagreement('model-vs-impl.history', 'stateful model (UDT class cache) differs from the implementation over the frame history %s v%d: impl %s' % (
+                    name, case['pv'], repr(impl)[:400]), case={k: v for k, v in case.items() if k != 'impl'}, actual=repr(impl)[:800])
+            elif code in ('1', '2', '3'):
                 ctx.proof_broken.append(('harness:spec-twin', 'chk code %s (1 generator not wf, 2 encoder twin, 3 exact twin) at %s v%s' % (code, name, case['pv'])))
             else:
                 model = None
@@ -340,6 +372,9 @@ def replay(ctx, rp):
         return 1
     rm = jt(case.get('rm'))
     bts = bytes.fromhex(case['body'])
+    for h in case.get('history') or []:      # frames the same process decoded before (they leave classes in UserType._cache)
+        hi, hn, _, _ = run_impl(h['pv'], jt(h.get('rm')), h['stream'], h['flags'], h['opcode'], bytes.fromhex(h['body']), raw=h.get('raw_cells', True))
+        print('  earlier frame v%d opcode=%d body=%s -> %s' % (h['pv'], h['opcode'], h['body'][:60], hn or 'decoded'))
     is_err = case['opcode'] == 0
     impl, note, xt, xnote = run_impl(case['pv'], rm, case['stream'], case['flags'], case['opcode'], bts, raw=case.get('raw_cells', True),
                                      want_exn=is_err and 'expected_exception' in case,
